@@ -150,23 +150,34 @@ QUOTED_SPLIT_RE = re.compile(r"(%[0-9A-Fa-f]{2})")
 QUOTED_RE = re.compile(r"^%[0-9A-Fa-f]{2}$")
 
 
-def safely_quote_iter(string):
+def safely_quote_iter(string, safe="/"):
     for piece in QUOTED_SPLIT_RE.split(string):
         if QUOTED_RE.match(piece):
             yield piece
         else:
-            yield quote(piece)
+            yield quote(piece, safe=safe)
 
 
-def safely_quote(string):
-    return "".join(safely_quote_iter(string))
+def safely_quote(string, safe="/"):
+    return "".join(safely_quote_iter(string, safe=safe))
 
 
-def safely_quote_qsl(qsl):
+def safely_quote_qsl(qsl, safe="/"):
     return [
-        (safely_quote(key), safely_quote(value) if value is not None else None)
+        (
+            safely_quote(key, safe=safe),
+            safely_quote(value, safe=safe) if value is not None else None,
+        )
         for key, value in qsl
     ]
+
+
+# NOTE: characters that can legitimately be found raw in a parsed url component
+# even though the matching safely_unquote_* function would never unquote them.
+# They must stay raw when quoting, lest both representations cannot be
+# converted into one another.
+SAFE_FOR_AUTH_ITEM = "/:@"
+SAFE_FOR_QUERY_ITEM = "/="
 
 
 def upper_match(match):
